@@ -14,6 +14,7 @@ import vlib
 import progs
 import events
 import specdiff
+from gen import shapes
 
 THEOREM_MODULES = ["Yarel.Props.C08", "Yarel.Props.C04", "Yarel.Props.ModelLimits", "Yarel.Props.SpecExceptions", "Yarel.Props.FnsTie.HandlerSteps"]
 REQUIRED_THEOREMS = ["vm_unwind_contract", "vm_unwind_uncaught", "vm_push_handler_effect", "vm_pop_handler_effect", "vm_jump_finally_effect",
@@ -302,7 +303,7 @@ def correspondence(ctx, model_ok=True):
                 which[0], which[1], printed[k:k + 1], c[0], list(c[3])[:1] if len(c) > 3 else ""),
                 "program": bsrc, "modules": bmods, "expected": bexp, "signature": "builtin failure not caught: " + str(which[0])[:40], "failing_input": True})
     # (c) reference interpreter
-    sd = specdiff.diff(ctx, [(n, s, m) for n, s, m, _ in gen] + [("scenario:" + sc[0], sc[1], {}) for sc in SCENARIOS] + [("scenario:aftermath",) + aftermath_program()], "C08", broken) if model_ok else {"failures": [], "compared": 0}
+    sd = specdiff.diff(ctx, [(n, s, m) for n, s, m, _ in gen] + [("scenario:" + sc[0], sc[1], {}) for sc in SCENARIOS] + [("scenario:aftermath",) + aftermath_program()] + [(n, s, {}) for n, s in shapes.all_shapes()], "C08", broken) if model_ok else {"failures": [], "compared": 0}
     failures += sd["failures"]
     tags = {}
     for _, _, _, tg in gen:
